@@ -533,6 +533,17 @@ theorem good_recvStep {src : Bytes} {s : Recv.State} (h : Good src s) (now : Nat
       | (split <;> (apply res_of_src; inv_auto src_frame 4 []))
       | (apply res_of_src; inv_auto src_frame 4 [])
 
+theorem C01_init_good (src : Bytes) (cfg : Recv.Config) (fs : Fs.FS) (t0 : Nat) : Good src (Recv.new cfg fs t0) := by
+  apply res_of_src
+  have hd : DataOk src (Recv.new cfg fs t0) := by
+    refine ⟨⟨?_, List.Pairwise.nil⟩, ?_, Nat.zero_le _, ?_⟩
+    · intro sg hsg; cases hsg
+    · intro sg hsg; cases hsg
+    · intro x hx; obtain ⟨sg, hsg, _⟩ := hx; cases hsg
+  refine ⟨hd, ?_, ?_⟩
+  · intro n hn; cases hn
+  · intro hh; cases hh
+
 /-- **C01 (receiver, all histories).** Let the link deliver, in any order and with any losses and
 duplications, interleaved with timer expirations, transmissions and user requests at any times,
 only PDUs of a transfer of the file `src`: data PDUs carrying the bytes of `src` at the offsets they
@@ -553,17 +564,7 @@ theorem C01_delivered_is_source (src : Bytes) (cfg : Recv.Config) (fs : Fs.FS) (
       intro s h hx
       obtain ⟨now, e⟩ := x
       exact ih _ (good_recvStep h now e (hx (now, e) (List.mem_cons_self ..))) (fun y hy => hx y (List.mem_cons_of_mem _ hy))
-  have hnew : Good src (Recv.new cfg fs t0) := by
-    apply res_of_src
-    have hd : DataOk src (Recv.new cfg fs t0) := by
-      refine ⟨⟨?_, List.Pairwise.nil⟩, ?_, Nat.zero_le _, ?_⟩
-      · intro sg hsg; cases hsg
-      · intro sg hsg; cases hsg
-      · intro x hx; obtain ⟨sg, hsg, _⟩ := hx; cases hsg
-    refine ⟨hd, ?_, ?_⟩
-    · intro n hn; cases hn
-    · intro hh; cases hh
-  exact (key evs _ hnew hev).2
+  exact (key evs _ (C01_init_good src cfg fs t0) hev).2
 
 end Cfdp.Loop
 
